@@ -9,7 +9,9 @@ package c09
 
 import (
 	"bytes"
+	_ "embed"
 	"encoding/binary"
+	"encoding/json"
 	"errors"
 	"fmt"
 	"hash/fnv"
@@ -668,6 +670,9 @@ const (
 	allocPerB  = 256
 )
 
+//go:embed crafted.json
+var craftedJSON []byte
+
 var parentDigest = map[string]uint64{}
 
 // Main runs the monitor.
@@ -793,6 +798,15 @@ func Main() {
 		run.Inconclusive(fmt.Sprintf("budgets not 4x above the unmutated corpus maximum (cpu %.2fs, alloc ratio %.2f)", maxCPU, maxAllocRatio))
 	}
 
+	// crafted multi-field witnesses of repaired defects that no stream reaches by itself
+	var crafted []Case
+	if err := json.Unmarshal(craftedJSON, &crafted); err != nil {
+		run.Inconclusive("crafted.json unreadable: " + err.Error())
+	}
+	for i := range crafted {
+		one(&crafted[i])
+	}
+
 	run.Extra("files", nFiles)
 	run.RunChildren(vrun.ChildCfg{N: total, Chunk: 1500, MemKiB: 8 << 20, StallWall: 10 * time.Minute}, func(d vrun.Death) {
 		c := GenCase(run.Seed, d.Case, files)
@@ -874,11 +888,33 @@ var sysValues32 = []uint32{0, 1, 0x7FFFFFFF, 0x80000000, 0xFFFFFFFF, 0xFFFFFFF0}
 // case k of a tag = (site k mod #sites, aligned offset, width, value).
 func genTagCase(seed int64, k int, files []*corpus.File) *Case {
 	buildTagIndex(files)
+	short := k%3 == 2
+	if short {
+		k /= 3
+	}
 	tg := tagList[k%len(tagList)]
 	k /= len(tagList)
 	sites := tagIndex[tg]
 	site := sites[k%len(sites)]
 	k /= len(sites)
+	if short && site.t.dirOff+16 <= len(site.file.Bytes()) {
+		// two-field variant: the table is cut short in the directory (length 4..40, so that
+		// only its header is left) and one 16-bit field of what is left - a count, a record
+		// size, an offset - is set to a small or a huge value
+		lens := []int{4, 6, 8, 10, 12, 14, 16, 18, 20, 24, 28, 32, 40}
+		L := lens[k%len(lens)]
+		k /= len(lens)
+		if L > site.t.length {
+			L = site.t.length
+		}
+		vals := []uint16{0, 1, 2, 3, 4, 7, 8, 0x7FFF, 0xFFFF}
+		v := vals[k%len(vals)]
+		k /= len(vals)
+		off := 2 * (k % (L / 2))
+		return &Case{File: site.file.ID, Kind: "tag-short-table-field",
+			Edits: []Edit{{Off: site.t.dirOff + 12, Data: put32(uint32(L))}, {Off: site.t.off + off, Data: put16(v)}},
+			Note:  fmt.Sprintf("%s length=%d +%d=%#x", tagStr(tg), L, off, v)}
+	}
 	span := site.t.length
 	if span > 512 {
 		span = 512
